@@ -156,6 +156,11 @@ func (m *minimiser) minimise(cs []runCase) []runCase {
 						cand[ri].plan.Tasks[t].Ops[o].Scribble = false
 						try(cand)
 					}
+					if op.Fresh {
+						cand := cloneCases(cur)
+						cand[ri].plan.Tasks[t].Ops[o].Fresh = false
+						try(cand)
+					}
 					if op.Shared >= 0 {
 						cand := cloneCases(cur)
 						cand[ri].plan.Tasks[t].Ops[o].Shared = -1
